@@ -6,6 +6,7 @@ import (
 	"flag"
 	"fmt"
 	"os"
+	"os/exec"
 	"time"
 
 	"verif/codec"
@@ -92,6 +93,9 @@ func cmdJob(args []string) {
 			os.Exit(2)
 		}
 		m := hist.MonitorFor(*prop)
+		if *prop == "C18" {
+			m = hist.MonC18{Subsets: *tier == "thorough"}
+		}
 		cfg := hist.ConfigFor(*prop, *tier)
 		cfg.Deadline = *deadline
 		res = hist.Explore(u, m, cfg)
@@ -128,6 +132,20 @@ func cmdReplay(args []string) {
 	if err := json.Unmarshal(b, &v); err != nil {
 		fmt.Fprintln(os.Stderr, err)
 		os.Exit(2)
+	}
+	for _, t := range v.Tags {
+		if t == "crash" {
+			// the job process died: re-run the whole job in a child process
+			self, _ := os.Executable()
+			cmd := exec.Command(self, "job", "-prop", v.Property, "-tier", v.Tier, "-universe", v.Universe, "-out", os.DevNull)
+			out, err := cmd.CombinedOutput()
+			if err == nil {
+				fmt.Println("NOT REPRODUCED: the job runs to completion now")
+				os.Exit(0)
+			}
+			fmt.Printf("REPRODUCED %s: job %s died again:\n%s\n", v.Property, v.Universe, firstLines(string(out), 15))
+			os.Exit(1)
+		}
 	}
 	if v.Property == "C17" {
 		u, err := hist.FindUniverse("C17", v.Tier, v.Universe)
@@ -189,6 +207,10 @@ func cmdReplay(args []string) {
 		os.Exit(2)
 	}
 	m := hist.MonitorFor(v.Property)
+	if v.Property == "C18" {
+		m = hist.MonC18{Subsets: v.Tier == "thorough"}
+		hist.SetGCAll(true)
+	}
 	start := time.Now()
 	v2, _, _, err := hist.EvalPath(u, m, v.Path, v.Fill, nil)
 	if err != nil {
